@@ -7,8 +7,9 @@ from vf.contracts import contract, Loop
 contract(
     "ascmhl.commands.test_for_missing_files",
     trusted=True,
-    note="comprehension over a set with pathspec matching and logging: bounded (C03/C12 drivers); assumed here: None iff every "
-    "not-found path is matched by the ignore patterns, otherwise a CompletenessCheckFailedException object",
+    note="first half (comprehension over a set with a nested closure over pathspec): bounded (C03/C12 drivers); the second half - "
+    "None iff no unignored path is left, otherwise the completeness failure and one output line per path - is proved as region "
+    "`report`; the whole-function contract stays assumed at call sites",
     params={"not_found_paths": "set[str]", "root_path": "str", "ignore_spec": "MHLIgnoreSpec"},
     returns="opaque:exc?",
     ensures=["result is None or result == exc_code('CompletenessCheckFailedException')"],
